@@ -9,7 +9,8 @@
 
   Parties: thread 0 constructed canary and watcher and only waits; thread 1 owns the watcher (calls
   `alive()` once in `useAlive` configurations, works on the canary's owner while the guard is held,
-  releases the guard, runs `~watcher`, then its memory is gone); thread 2 destroys the canary (and the
+  releases the guard — in `moveGuard` configurations after moving it into a second guard object and
+  destroying the moved-from one —, runs `~watcher`, then its memory is gone); thread 2 destroys the canary (and the
   object that contains it: `canaryFreed`).  `touchC` / `touchW` record accesses to freed memory.
 -/
 import UnifexModel.Core.Reflect
@@ -19,12 +20,17 @@ open Unifex.Core
 
 structure Config where
   useAlive : Bool
+  /-- the guard returned by `alive()` is moved into a longer-lived object (`guard(guard&&)`); the
+      moved-from guard is destroyed first, the moved-to guard is released after the guarded work -/
+  moveGuard : Bool := false
 
 structure St where
   cw : Nat
   wc : Nat
   st : Nat
   guardHeld : Bool
+  g1 : Bool             -- `state_ != nullptr` in the guard object returned by alive()
+  g2 : Bool             -- `state_ != nullptr` in the guard object it was moved into
   aliveRes : Nat        -- history: 0 alive() not called, 1 returned a truthy guard, 2 a falsy one
   deadAtAlive : Bool    -- history: the canary destructor had begun when alive() returned
   canaryFreed : Bool
@@ -36,7 +42,7 @@ structure St where
   deriving DecidableEq, Repr
 
 def init (cfg : Config) : St :=
-  { cw := 1, wc := 1, st := 0, guardHeld := false, aliveRes := 0, deadAtAlive := false, canaryFreed := false,
+  { cw := 1, wc := 1, st := 0, guardHeld := false, g1 := false, g2 := false, aliveRes := 0, deadAtAlive := false, canaryFreed := false,
     watcherFreed := false, bad := 0, pw := if cfg.useAlive then 0 else 3, pcn := 0 }
 
 def flag (s : St) (n : Nat) : St := if s.bad = 0 then { s with bad := n } else s
@@ -48,13 +54,25 @@ def ev (t : Nat) (txt : String) : Lbl := (t, some txt)
 def tau (t : Nat) : Lbl := (t, none)
 
 /-- the watcher's thread: alive(), guarded work, ~guard, ~watcher -/
-def stepW (s : St) : Option (Lbl × St) :=
+def stepW (cfg : Config) (s : St) : Option (Lbl × St) :=
   match s.pw with
-  | 0 =>  -- alive(): state_.compare_exchange_strong(alive, guarded)
-    if s.st = 0 then some (ev 1 "alive 1", { (touchC s) with st := 1, guardHeld := true, aliveRes := 1, pw := 1 })
+  | 0 =>  -- alive(): state_.compare_exchange_strong(alive, guarded); guard{&state_} / guard{nullptr}
+    if s.st = 0 then
+      some (ev 1 "alive 1", { (touchC s) with st := 1, guardHeld := true, g1 := true, aliveRes := 1,
+                                               pw := if cfg.moveGuard then 11 else 1 })
     else some (ev 1 "alive 0", { s with aliveRes := 2, deadAtAlive := decide (s.pcn ≥ 1), pw := 3 })
   | 1 => some (tau 1, { (touchC s) with pw := 2 })            -- work on the canary's owner under the guard
-  | 2 => some (ev 1 "guard.release", { s with st := 3, guardHeld := false, pw := 3 })   -- ~guard: store(done)
+  | 2 =>  -- ~guard: if (state_) state_->store(done)
+    some (ev 1 "guard.release", { s with st := if s.g1 then 3 else s.st, g1 := false, guardHeld := false, pw := 3 })
+  -- moveGuard: guard(guard&& other) : state_(std::exchange(other.state_, nullptr)); then ~guard of the
+  -- moved-from object (plain memory and, were its state_ still set, the store of `done`)
+  | 11 =>
+    let g2' := s.g1
+    let g1' := false
+    some (ev 1 "guard.moved", { s with g1 := false, g2 := g2', st := if g1' then 3 else s.st, pw := 12 })
+  | 12 => some (tau 1, { (touchC s) with pw := 13 })          -- work on the canary's owner under the moved-to guard
+  | 13 =>  -- ~guard of the moved-to object
+    some (ev 1 "guard.release", { s with st := if s.g2 then 3 else s.st, g2 := false, guardHeld := false, pw := 3 })
   -- ~watcher
   | 3 => some (tau 1, { s with pw := if s.wc = 0 then 9 else if s.wc = 2 then 8 else 4 })   -- canary_.load()
   | 4 => if s.wc = 1 then some (tau 1, { s with wc := 2, pw := 5 }) else some (tau 1, { s with pw := 8 })
@@ -86,9 +104,9 @@ def stepC (s : St) : Option (Lbl × St) :=
     some (ev 2 "cdtor.end", { s1 with canaryFreed := true, pcn := 10 })
   | _ => none
 
-def sys (_cfg : Config) : LSys St Lbl where
-  init := init _cfg
-  next s := (stepW s).toList ++ (stepC s).toList
+def sys (cfg : Config) : LSys St Lbl where
+  init := init cfg
+  next s := (stepW cfg s).toList ++ (stepC s).toList
 
 def obsOf (l : Lbl) : Option String := l.2.map (fun txt => s!"T{l.1} {txt}")
 
@@ -96,33 +114,40 @@ def final (_cfg : Config) (s : St) : Bool := s.pw = 10 && s.pcn = 10
 
 /-- C19 for the canary:
     * neither destructor (nor guarded work) touches the other object after it is gone (`bad ≠ 1, 2`);
-    * `~canary` does not return while a guard is held (`bad ≠ 3`; equivalently `guardHeld → ¬canaryFreed`);
+    * `~canary` does not return while a guard is held (`bad ≠ 3`; equivalently `guardHeld → ¬canaryFreed`),
+      also when the guard was moved and the moved-from object has already been destroyed;
+    * at most one guard object refers to the watcher's state, and only while the guard is held;
     * `alive()` is falsy only if the canary's destructor has begun;
     * no deadlock (both lock orders, the guard spin) and both destructors terminate. -/
 def safe (cfg : Config) (s : St) : Bool :=
   s.bad = 0 &&
   (!s.guardHeld || !s.canaryFreed) &&
+  (!(s.g1 && s.g2)) && (!(s.g1 || s.g2) || s.guardHeld) &&
   (s.aliveRes ≠ 2 || s.deadAtAlive) &&
   ((sys cfg).next s |>.isEmpty |> fun dead => !dead || final cfg s) &&
   (!final cfg s || (s.canaryFreed && s.watcherFreed && !s.guardHeld))
 
 def b2n (b : Bool) : Nat := if b then 1 else 0
 def encSt (s : St) : List Nat :=
-  [s.cw, s.wc, s.st, b2n s.guardHeld, s.aliveRes, b2n s.deadAtAlive, b2n s.canaryFreed, b2n s.watcherFreed,
-   s.bad, s.pw, s.pcn]
+  [s.cw, s.wc, s.st, b2n s.guardHeld, b2n s.g1, b2n s.g2, s.aliveRes, b2n s.deadAtAlive, b2n s.canaryFreed,
+   b2n s.watcherFreed, s.bad, s.pw, s.pcn]
 def decSt (l : List Nat) : St :=
   match l with
-  | [a0, a1, a2, a3, a4, a5, a6, a7, a8, a9, a10] => ⟨a0, a1, a2, a3 == 1, a4, a5 == 1, a6 == 1, a7 == 1, a8, a9, a10⟩
-  | _ => { init ⟨false⟩ with bad := 99 }
+  | [a0, a1, a2, a3, g1, g2, a4, a5, a6, a7, a8, a9, a10] =>
+    ⟨a0, a1, a2, a3 == 1, g1 == 1, g2 == 1, a4, a5 == 1, a6 == 1, a7 == 1, a8, a9, a10⟩
+  | _ => { init ⟨false, false⟩ with bad := 99 }
 
 def coded : Coded St :=
   { enc := fun s => packNats 64 (encSt s), dec := fun n => decSt (unpackNats 64 40 n), M := 1021, W := 100 }
 
 /-- alive() + guarded work + ~watcher on T1 versus ~canary on T2 -/
-def cfgGuard : Config := ⟨true⟩
+def cfgGuard : Config := ⟨true, false⟩
 /-- the two destructors only -/
-def cfgDtors : Config := ⟨false⟩
+def cfgDtors : Config := ⟨false, false⟩
+/-- like k_guard, but the guard is moved into a longer-lived object and the moved-from guard is
+    destroyed before the guarded work -/
+def cfgMove : Config := ⟨true, true⟩
 
-def configs : List (String × Config) := [("k_guard", cfgGuard), ("k_dtors", cfgDtors)]
+def configs : List (String × Config) := [("k_guard", cfgGuard), ("k_dtors", cfgDtors), ("k_move", cfgMove)]
 
 end Unifex.Proto.Canary
